@@ -19,9 +19,10 @@ class GatherGen:
     prefix/labels (labels inserted in different orders) on which the same collectors are registered
     in different orders, then rounds of back-to-back gathers on all of them."""
 
-    def __init__(self, r, mixed=0.0, nreg=None):
+    def __init__(self, r, mixed=0.0, nreg=None, overlap=0.0):
         self.r = r
         self.mixed = mixed
+        self.overlap = overlap
         self.s = Slots()
         self.cols = []          # dicts: slot, ty (C/G/H), form (plain/vec/pull), nk, labels (vec), children [(slot, nk)]
         self.is_mixed = False
@@ -49,7 +50,7 @@ class GatherGen:
         consts = [(c, gens.label_value(r) if r.random() < 0.5 else r.choice(["1", "2", "10", "", "a", "b", "ab", "B", "é"])) for c in cn]
         r.shuffle(consts)
         o = mkopts(t["name"], help_, t["ns"], t["sub"], consts)
-        col = dict(ty=ty, children=[], labels=None, tmpl=t)
+        col = dict(ty=ty, children=[], labels=None, tmpl=t, opts=o)
         if not vn and ty == "G" and not cn and r.random() < 0.35:
             fq = "_".join(x for x in (t["ns"], t["sub"], t["name"]) if x)
             col.update(form="pull", nk=None, slot=s.emit("OpPulling", fq, help_, gens.some_float(r)))
@@ -182,6 +183,28 @@ class GatherGen:
                     self.s.emit("OpRegister", reg, late["slot"])
                     if back: self.s.emit("OpRegister", reg, col["slot"])
                 self.gathers(regs)
+        if self.overlap and r.random() < self.overlap:
+            # a user-written collector that shares one descriptor with a registered collector A and is itself NOT registered:
+            # unregistering it must fail and must leave A's descriptor reserved, so that an equal twin of A (same descriptor,
+            # another kind) is still refused and the family stays uniform
+            plains = [c for c in self.cols if c["form"] == "plain" and c["ty"] in "CG"]
+            if plains:
+                a = r.choice(plains); o = a["opts"]
+                fq = "_".join(x for x in (o["ns"], o["sub"], o["name"]) if x)
+                x = self.s.emit("OpCustom", [(fq, o["help"], [], list(o["consts"])), ("zz_other", "h", [], [])], [])
+                for reg in regs: self.s.emit("OpUnregister", reg, x)
+                tty = "G" if a["ty"] == "C" else "C"
+                if r.random() < 0.5:
+                    twin = self.s.emit("OpGauge" if tty == "G" else "OpCounter", "NF", o)      # equal collector of another kind
+                    self.update(twin, tty, "NF")
+                else:
+                    # another user-written collector claiming A's descriptor and one of its own
+                    # (it exposes nothing: whether it gets in is observed at register and at the next unregister)
+                    da = (fq, o["help"], [], list(o["consts"]))
+                    twin = self.s.emit("OpCustom", [da, ("zz_other2", "h", [], [])], [])
+                for reg in regs: self.s.emit("OpRegister", reg, twin)
+                self.gathers(regs)
+                for reg in regs: self.s.emit("OpUnregister", reg, twin)
         kinds = {}
         for col in self.cols:
             fq = "_".join(x for x in (col["tmpl"]["ns"], col["tmpl"]["sub"], col["tmpl"]["name"]) if x)
